@@ -79,9 +79,9 @@ CHECKS = {
     ),
     "C03": dict(
         technique=MULTI,
-        text="TLC enumerates trees with the source leaf in the SQL engine or an iteration engine, up to 2 (quick) / 3 (thorough) default-option calls (8 operations, transfers to each of three engines incl. round trips and self-transfers, materializations), then ONE final operation out of 6-16 (calculation, projections incl. ones that drop columns needed downstream, selections, deduplication, sorts, slices) with all 24 combinations of preferred engine x backtrack x transfer x require_preferred_engine, and joins with a SQL leaf under every backtrack/transfer combination. On the code-shaped apply/backtrack/commute/transfer rules TLC proves: content equals the naive application (list or bag, as determined), columns equal, no ColumnError from placement (NoPlacementColumnError), transfer=>result in the preferred engine unless backtracking fully succeeded, require=>no operation added outside it. Every state is replayed through the real API, processed by a real Processor (SQLite temp tables <-> RowSequence) and executed; rows, columns, engine and operation counts per engine are compared with TLC's oracle.",
+        text="TLC enumerates trees with the source leaf in the SQL engine or an iteration engine, up to 2 (quick) / 3 (thorough) default-option calls (8 operations, transfers to each of three engines incl. round trips and self-transfers, materializations), then ONE final operation out of 6-16 (calculation, projections incl. ones that drop columns needed downstream, selections, deduplication, sorts, slices) with all 24 combinations of preferred engine x backtrack x transfer x require_preferred_engine, and joins with a SQL leaf under every backtrack/transfer combination. On the code-shaped apply/backtrack/commute/transfer rules TLC proves: content equals the naive application (list or bag, as determined), columns equal, no ColumnError from placement (NoPlacementColumnError), transfer=>result in the preferred engine unless backtracking fully succeeded, require=>no operation added outside it. Every state is replayed through the real API, processed by a real Processor (SQLite temp tables <-> RowSequence) and executed; rows, columns, engine and operation counts per engine are compared with TLC's oracle. The final call is ALSO issued on the tree returned by Processor.process() (transfers and materializations hold payloads): TLC runs the as-coded processor model (RA_Proc) and then the same apply/backtrack rules on the payloaded tree and proves ProcessedBaseSound (accepted like on the unprocessed tree, well-formed, reference rows, truthful bounds, a payload survives only on a marker whose upstream is unchanged); the replay does the same with a real Processor and compares rows, tree structure and the payload cell of every marker with the model. Joins are issued both as rel.join(T2) and as Join(p).partial(T2, is_lhs=True).apply(rel).",
         design_ref="§6 C03",
-        note="open findings F2 (projection past deduplication, pinned by a repository test) and F8 (SQL materialization after a transfer) are excluded by matcher+signature and reported as KNOWN-FINDING; a companion configuration proves the F2 class still violates",
+        note="open findings F2 (projection past deduplication, pinned by a repository test) and F8 (SQL materialization after a transfer) are excluded by matcher+signature and reported as KNOWN-FINDING; a companion configuration proves the F2 class still violates; F17 (failed backtrack through a payloaded Transfer) was found by this check and fixed in /repo (9442585); companion MultiKF17 re-derives it from the pinned-commit rule",
     ),
     "C15": dict(
         technique=MULTI,
@@ -91,7 +91,7 @@ CHECKS = {
     ),
     "C07": dict(
         technique="TLA+ spec ProcHistory (TLC exhaustive: trees x histories of process/reprocess/execute/attach over an abstract payload state machine) + conformance replay into the real Processor with a real SQLite<->iteration hook implementation; plus the MultiEngine replay (every tree processed and executed)",
-        text="TLC enumerates trees over a SQL or iteration source (<=3 quick / <=4 thorough building calls: operations, transfers among three engines, up to two materializations incl. directly after a transfer, chains with a statically empty leaf, chains of the tree with itself sharing its materialization nodes, zero-column branches) and every history of <=2 (quick) / <=3 (thorough) process / process-the-result-again / iteration execute / attach_payload actions, on an abstract state machine of payload cells. Every history is replayed into the real Processor (hooks implemented for real with SQLite temp tables and RowSequence): rows of the processed tree vs TLC's reference rows, structure of the input tree before/after, transfers of the input tree never payloaded, materializations payloaded exactly as the abstract machine says with the rows of their upstream, same columns/engine, hooks never called for statically empty/identity relations and always on sources that really evaluate.",
+        text="TLC enumerates trees over a SQL or iteration source (<=3 quick / <=4 thorough building calls: operations, transfers among three engines, up to two materializations incl. directly after a transfer, chains with a statically empty leaf, chains of the tree with itself sharing its materialization nodes, zero-column branches) and every history of <=2 (quick) / <=3 (thorough) process / process-the-result-again / iteration execute / attach_payload actions, on an abstract state machine of payload cells. Every history is replayed into the real Processor (hooks implemented for real with SQLite temp tables and RowSequence): rows of the processed tree vs TLC's reference rows, structure of the input tree before/after, transfers of the input tree never payloaded, materializations payloaded exactly as the abstract machine says with the rows of their upstream, same columns/engine, hooks never called for statically empty/identity relations and always on sources that really evaluate. A second replay pass uses a Processor whose plain transfers hand over LAZY payloads (only materializations may cache), and histories over trees without any materialization but with a transfer above a chain are included.",
         design_ref="§6 C07",
         note="open findings F8 / F16 (SQL materialization whose upstream is rebuilt by process()) excluded by matcher+signature; the as-coded transcription RA_Proc!Process is proved by TLC to refine the abstract machine outside that class (ProcessRefines; companion ProcKF8 re-derives F8 in the model) and its predicted hook-call sequences are compared with the real Processor's hook log (zero drift)",
     ),
@@ -103,7 +103,7 @@ CHECKS = {
     ),
     "C10": dict(
         technique="TLA+ spec ProcHistory: action property WriteOnce and invariant EvalOnce on the abstract payload machine (TLC) + conformance replay (payload object identity across the history, TypeError on illegal attach, leaf iteration counts)",
-        text="On the ProcHistory state machine TLC checks [][payload set => unchanged]_vars and evals[m] <= 1 for every history. The replay performs each history for real and checks after every step that each materialization's payload, once set, stays the identical object; that attach_payload succeeds only on an empty marker and raises TypeError (changing nothing) on leaves, operation relations and filled markers; that payload rows equal the upstream's content; and that the counting leaf below the materializations is iterated no more often than evaluating every shared materialization's upstream once requires, over the whole history (process twice, execute after process, two branches sharing one materialization).",
+        text="On the ProcHistory state machine TLC checks [][payload set => unchanged]_vars and evals[m] <= 1 for every history. The replay performs each history for real and checks after every step that each materialization's payload, once set, stays the identical object; that attach_payload succeeds only on an empty marker and raises TypeError (changing nothing) on leaves, operation relations and filled markers; that payload rows equal the upstream's content; and that the counting leaf below the materializations is iterated no more often than evaluating every shared materialization's upstream once requires, over the whole history (process twice, execute after process, two branches sharing one materialization). Parts of the tree outside every materialization may be re-read by each evaluation of the history (bound = below + evaluations x outside). Reading a materialization's payload twice must not re-evaluate its upstream (checked with a lazy-transfer Processor).",
         design_ref="§6 C10",
         note="iteration-sourced trees carry the counting leaf; SQL-sourced trees are checked for write-once/TypeError/content only; F8 excluded as for C07",
     ),
